@@ -244,7 +244,7 @@ func StringCoarseSet(counted bool) Config[string, struct{}] {
 }
 
 // NConfigs is the number of configurations ForConfig dispatches over.
-const NConfigs = 11
+const NConfigs = 13
 
 // Visitor is called with one configuration; the methods exist because Go has no generic closures.
 type Visitor interface {
@@ -281,6 +281,10 @@ func ForConfig(i int, counted bool, v Visitor) {
 		v.IntSet(IntCmpSetReversed(counted))
 	case 10:
 		v.StringSet(StringCoarseSet(counted))
+	case 11:
+		v.IntInt(TokKeyMap(counted))
+	case 12:
+		v.IntString(TokKeyLessMap(counted))
 	default:
 		panic("tk.ForConfig: bad index")
 	}
